@@ -122,7 +122,10 @@ def check(prop, tier, seed):
         f = violations[0]
         path = core.write_replay(prop, 'violation', dict(property=prop, failure=f, broken=broken, seed=seed,
                                                           replay_hint=f.get('replay')))
-        lines.append('  failing input [%s]: %s' % (f.get('signature'), str(f.get('what'))[:500].replace('\n', ' ')))
+        where = (f.get('origin') or {}).get('name') or (f.get('origin') or {}).get('cmd') or ''
+        lines.append('  failing input [%s]%s: %s' % (f.get('signature'), (' in ' + str(where)) if where else '', str(f.get('what'))[:500].replace('\n', ' ')))
+        for bk in broken[:3]:
+            lines.append('  also no longer checks [%s]: %s' % (bk.get('kind'), str(bk.get('what'))[:400].replace('\n', ' ')))
         lines.append('VIOLATION property=%s replay=%s' % (prop, path))
     elif broken:
         rc = 1
